@@ -478,7 +478,7 @@ def allowed_values_values(col):
             seen.append(e)
     extra = {'i64': 7, 'u8': 7, 'i64x': 7, 'Int64': 7, 'f64': 7.5,
              'f64inf': 7.5, 'strobj': 'zz', 'cat': 'zz', 'manycat': 'zz'}
-    exact = [real_or_tag(e) for e in seen]
+    exact = list(seen)
     if seen:
         out.append(exact)
         out.append(exact[1:])
@@ -492,10 +492,6 @@ def allowed_values_values(col):
             if x not in out:
                 out.append(x)
     return out
-
-
-def real_or_tag(e):
-    return e
 
 
 def rex_values(col):
@@ -576,10 +572,3 @@ def variants(kind, e):
                 {'prec': None, 'eps': 0, 'tc': 'sloppy'},
                 {'prec': None, 'eps': 0, 'tc': None}]
     return [{'prec': None, 'eps': 0, 'tc': None}]
-
-
-def representative_values(col, kind, tier):
-    """A reduced list (satisfied / violated / null where they exist) used by
-    the wider layers (pairs, null-addition, report modes, detection)."""
-    vals = constraint_values(col, kind, tier)
-    return vals
